@@ -7,6 +7,11 @@
 // that "keeps arriving or closed" can be judged. Stage T: what arrived at the
 // remote frame handler, the closing state and the wire capture are judged by
 // TLC (LinkLayer_Trace).
+// Successor links: a link may have predecessors - earlier links between the
+// SAME two router stacks (neither restarted), whose sealed frames the attacker
+// kept. The model's fault prev-link puts one of them on the wire of the new
+// link; the plans that contain it are run on chains of 2-3 links of one pair
+// of routers (runOn / pair / succ) and judged by the same trace module.
 package main
 
 import (
@@ -60,14 +65,96 @@ type runner struct {
 // adversary drops the rest), so that a distance of W model frames is W*scale sequence numbers - the real replay
 // window of 64 is met exactly with the model's W = 2 and scale 32.
 func (r *runner) run(plan []fault, dir string, n int, sizes []int, garbageLen int, scale int) (events []any, desc map[string]any) {
+	return r.runOn(nil, plan, dir, n, sizes, garbageLen, scale)
+}
+
+// pair: two router stacks that outlive their links. The attacker keeps every link frame either of them sealed for the
+// other on an earlier link (as it crossed the wire, before any fault was applied to it).
+type pair struct {
+	a, b   *world.Node
+	da, db *linkworld.Drain
+	recs   map[string][]prevRec // sealed by (name of the router) -> link frames, oldest first
+	handed []prevRec            // the frames that were handed to the earlier links (to name a delivery; never a verdict)
+	links  int                  // links these two have had so far
+}
+
+type prevRec struct {
+	link int // 1-based number of the link between the two routers
+	data []byte
+}
+
+func newPair() *pair {
 	world.InstallLogCapture()
 	w := world.NewWorld()
 	ids := mesh.Identities(2)
-	a := w.NewNode("A", world.NodeOpts{ID: ids[0], Cfg: config.Store{}})
-	b := w.NewNode("B", world.NodeOpts{ID: ids[1], Cfg: config.Store{}})
-	da, db := linkworld.StartDrain(a), linkworld.StartDrain(b)
-	defer da.Stop()
-	defer db.Stop()
+	p := &pair{recs: map[string][]prevRec{}}
+	p.a = w.NewNode("A", world.NodeOpts{ID: ids[0], Cfg: config.Store{}})
+	p.b = w.NewNode("B", world.NodeOpts{ID: ids[1], Cfg: config.Store{}})
+	p.da, p.db = linkworld.StartDrain(p.a), linkworld.StartDrain(p.b)
+	return p
+}
+
+func (p *pair) stop() { p.da.Stop(); p.db.Stop() }
+
+// succ describes one link in the life of a pair.
+type succ struct {
+	p        *pair
+	swapped  bool // router B dials this time (A dialled the pair's first link unless that one was swapped as well)
+	otherEnd bool // prev-link: the injected records were sealed by the RECEIVER of this direction (its own old frames come back to it)
+	oldest   bool // prev-link: records of the oldest link on record instead of the latest
+	closeBy  int  // how the link ends: 0 the dialler closes it, 1 the listener closes it, 2 the connection breaks
+}
+
+// runOn is run on a given pair of routers (sc == nil: a fresh pair that has never had a link).
+func (r *runner) runOn(sc *succ, plan []fault, dir string, n int, sizes []int, garbageLen int, scale int) (events []any, desc map[string]any) {
+	var pr *pair
+	if sc != nil {
+		pr = sc.p
+	} else {
+		pr = newPair()
+		defer pr.stop()
+	}
+	// a is the router that dials, "A" the direction of the frames it sends
+	a, b, da, db := pr.a, pr.b, pr.da, pr.db
+	if sc != nil && sc.swapped {
+		a, b, da, db = pr.b, pr.a, pr.db, pr.da
+	}
+	workers := [2]int{a.Peer.VerifWorkerCnt(), b.Peer.VerifWorkerCnt()}
+	pr.links++
+	// prev-link: which recorded frame goes in front of which unit is decided before the link exists
+	prevPick := map[int][]byte{}
+	prevDesc := []map[string]any{}
+	for _, f := range plan {
+		if f.Op != "prev-link" {
+			continue
+		}
+		sealer := a
+		if (dir == "B") != (sc != nil && sc.otherEnd) {
+			sealer = b
+		}
+		pool := pr.recs[sealer.Name]
+		if len(pool) == 0 {
+			r.c.Broken("prev-link: the routers have no earlier link with frames sealed by %s", sealer.Name)
+			return nil, map[string]any{"plan": plan}
+		}
+		want := pool[len(pool)-1].link
+		if sc != nil && sc.oldest {
+			want = pool[0].link
+		}
+		var of []prevRec
+		for _, rec := range pool {
+			if rec.link == want {
+				of = append(of, rec)
+			}
+		}
+		// the last frame of that link as often as any other: its sequence number is ahead of most of what the new link has seen
+		rec := of[len(of)-1]
+		if r.rng.Intn(2) == 0 {
+			rec = of[r.rng.Intn(len(of))]
+		}
+		prevPick[f.At] = rec.data
+		prevDesc = append(prevDesc, map[string]any{"before_frame": f.At, "recorded_on_link": rec.link, "sealed_by": sealer.Name, "bytes": len(rec.data)})
+	}
 	// faults by link-frame index (1-based, after the 3 handshake messages of the direction)
 	byAt := map[int][]fault{}
 	for _, f := range plan {
@@ -155,6 +242,8 @@ func (r *runner) run(plan []fault, dir string, n int, sizes []int, garbageLen in
 					out = append([][]byte{append([]byte(nil), reverse[len(reverse)-1]...)}, out...)
 				}
 				revMu.Unlock()
+			case "prev-link":
+				out = append([][]byte{append([]byte(nil), prevPick[k]...)}, out...)
 			case "garbage-raw":
 				g := make([]byte, 1+r.rng.Intn(200))
 				r.rng.Read(g)
@@ -169,10 +258,34 @@ func (r *runner) run(plan []fault, dir string, n int, sizes []int, garbageLen in
 		return out
 	}
 	res := linkworld.Connect(a, b, hook, 300*time.Millisecond)
+	if sc != nil && (res.LinkA == nil || res.LinkB == nil) && a.Peer.GetLink(b.ID.IP) == nil && b.Peer.GetLink(a.ID.IP) == nil {
+		// handshake messages carry a millisecond time sequence: a set-up that follows the previous one too closely is
+		// refused on correct code as well - once more, later
+		res.Proxy.Close()
+		time.Sleep(120 * time.Millisecond)
+		res = linkworld.Connect(a, b, hook, 300*time.Millisecond)
+	}
 	desc = map[string]any{"plan": plan, "dir": dir, "frames": n, "sizes": sizes, "garbage_len": garbageLen, "scale": scale}
+	if sc != nil {
+		desc["link_no"] = pr.links
+		desc["dialler"] = a.Name
+		desc["sender"] = map[string]string{"A": a.Name, "B": b.Name}[dir]
+		desc["closed_by"] = []string{"dialler", "listener", "connection broke"}[sc.closeBy]
+		if len(prevDesc) > 0 {
+			desc["prev_link_records"] = prevDesc
+		}
+	}
 	if res.LinkA == nil || res.LinkB == nil {
 		r.c.Broken("link set-up failed: %v %v", res.ErrA, res.ErrB)
 		return nil, desc
+	}
+	if sc != nil {
+		// whatever the routers' earlier links delivered has arrived long ago (their workers had ended before this set-up began)
+		for _, d := range []*linkworld.Drain{da, db} {
+			d.Hold.Store(false)
+			d.Take()
+			d.TakeMismatches()
+		}
 	}
 	from, to, link, drain := a, b, res.LinkA, db
 	if dir == "B" {
@@ -183,11 +296,12 @@ func (r *runner) run(plan []fault, dir string, n int, sizes []int, garbageLen in
 		peerLink = res.LinkA
 	}
 	events = append(events, map[string]any{"ev": "link"})
-	for _, f := range plan {
-		if f.Op != "reflect" {
+	var revHanded [][]byte // frames handed to the link's opposite direction
+	for _, f := range append([]fault{{Op: "successor"}}, plan...) {
+		if f.Op != "reflect" && !(f.Op == "successor" && sc != nil) {
 			continue
 		}
-		// the receiver has traffic of its own: n+4 frames in the opposite direction, recorded on the wire; their
+		// the receiver has traffic of its own (always when the routers may meet again: the attacker records both directions): n+4 frames in the opposite direction, recorded on the wire; their
 		// sequence numbers are ahead of anything this direction will have seen when one of them is reflected
 		otherDir := "B"
 		if dir == "B" {
@@ -200,6 +314,9 @@ func (r *runner) run(plan []fault, dir string, n int, sizes []int, garbageLen in
 			if err != nil {
 				panic(err)
 			}
+			if raw, err := rf.FrameDataWithMargins(0, 0); err == nil {
+				revHanded = append(revHanded, append([]byte(nil), raw...))
+			}
 			_ = peerLink.Send(rf)
 		}
 		deadline := time.Now().Add(300 * time.Millisecond)
@@ -207,7 +324,7 @@ func (r *runner) run(plan []fault, dir string, n int, sizes []int, garbageLen in
 			time.Sleep(100 * time.Microsecond)
 		}
 		if res.Proxy.NSent(otherDir) < 3+n+4 {
-			r.c.Broken("reflect: the opposite direction carried only %d link frames", res.Proxy.NSent(otherDir)-3)
+			r.c.Broken("%s: the opposite direction carried only %d link frames", f.Op, res.Proxy.NSent(otherDir)-3)
 		}
 		break
 	}
@@ -314,7 +431,7 @@ func (r *runner) run(plan []fault, dir string, n int, sizes []int, garbageLen in
 		if breaksFraming[f.Op] {
 			breaks = true
 		}
-		if f.Op != "dup" && f.Op != "garbage-framed" && f.Op != "garbage-raw" && f.Op != "swap" && f.Op != "reflect" {
+		if f.Op != "dup" && f.Op != "garbage-framed" && f.Op != "garbage-raw" && f.Op != "swap" && f.Op != "reflect" && f.Op != "prev-link" {
 			touched = append(touched, f.At)
 		}
 		if f.At > lastFault {
@@ -365,7 +482,17 @@ func (r *runner) run(plan []fault, dir string, n int, sizes []int, garbageLen in
 				id = i + 1
 			}
 		}
-		events = append(events, map[string]any{"ev": "delivered", "id": id, "identical": id != 0})
+		dv := map[string]any{"ev": "delivered", "id": id, "identical": id != 0}
+		if id == 0 {
+			for _, h := range pr.handed {
+				if bytes.Equal(g, h.data) {
+					// names the delivery; the verdict is that it is no frame of THIS link
+					dv["prev"] = true
+					dv["note"] = fmt.Sprintf("byte-identical to a frame that was handed to link #%d between the same two routers, not to this link (#%d)", h.link, pr.links)
+				}
+			}
+		}
+		events = append(events, dv)
 	}
 	if breaks && !closed && !resumed {
 		stalled = true
@@ -391,12 +518,54 @@ func (r *runner) run(plan []fault, dir string, n int, sizes []int, garbageLen in
 	events = append(events, map[string]any{"ev": "end", "sent": len(sent), "touched": touched, "breaks": breaks, "closed": closed,
 		"stalled": stalled, "resumed": resumed, "clear": clear})
 	desc["sent"] = len(sent)
+	if sc != nil {
+		// the link goes down in one of three ways; the attacker keeps what the two ends sealed
+		switch sc.closeBy {
+		case 0:
+			res.LinkA.Close(nil)
+		case 1:
+			res.LinkB.Close(nil)
+		default:
+			res.Proxy.Close()
+		}
+		for _, d := range []string{"A", "B"} {
+			sealer := a
+			if d == "B" {
+				sealer = b
+			}
+			kept := 0
+			for i := 3; i < res.Proxy.NSent(d) && kept < 64; i++ {
+				if rec := res.Proxy.Sent(d, i+1, 0); rec != nil {
+					pr.recs[sealer.Name] = append(pr.recs[sealer.Name], prevRec{pr.links, append([]byte(nil), rec...)})
+					kept++
+				}
+			}
+		}
+		for _, s := range append(sent, revHanded...) {
+			pr.handed = append(pr.handed, prevRec{pr.links, s})
+		}
+	}
 	for _, n := range []*world.Node{a, b} {
 		for _, l := range n.Peer.GetLinks() {
 			l.Close(nil)
 		}
 	}
 	res.Proxy.Close()
+	if sc != nil {
+		// the next link of the pair starts from routers at rest: no link registered, reader and writer workers ended
+		deadline := time.Now().Add(3 * time.Second)
+		atRest := func() bool {
+			return a.Peer.GetLink(b.ID.IP) == nil && b.Peer.GetLink(a.ID.IP) == nil &&
+				a.Peer.VerifWorkerCnt() <= workers[0] && b.Peer.VerifWorkerCnt() <= workers[1]
+		}
+		for !atRest() && time.Now().Before(deadline) {
+			time.Sleep(200 * time.Microsecond)
+		}
+		if !atRest() {
+			r.c.Broken("link #%d of the pair did not come to rest after it was closed (links %d/%d, workers %d/%d, before the link %v)", pr.links,
+				len(a.Peer.GetLinks()), len(b.Peer.GetLinks()), a.Peer.VerifWorkerCnt(), b.Peer.VerifWorkerCnt(), workers)
+		}
+	}
 	return events, desc
 }
 
@@ -450,7 +619,7 @@ func drainPeek(d *linkworld.Drain) [][]byte {
 func main() { vf.Main("C05", "model_checking", run) }
 
 func run(c *vf.Ctx) {
-	c.Rule("M: TLC exhaustive: 4 frames, every placement of <= 2 faults out of {flip header / body / MAC / length, truncate, duplicate, swap, drop, well-framed garbage, raw garbage}, reader with replay window and close threshold. R: every distinct fault plan of the model graph (quick: seeded sample of 120; thorough: all) applied by a proxy to the real link frames of a real link, both directions, frames of all 6 message types with sizes 1..10000 (+ appendices), well-framed garbage of lengths 4..100; after framing-breaking faults up to 600 more frames of ~20 kB (12 MB) are sent. T: deliveries, closing state and wire capture judged by TLC. distinct = distinct (plan, direction, garbage length)")
+	c.Rule("M: TLC exhaustive: 4 frames, every placement of <= 2 faults out of {flip header / body / MAC / length, truncate, duplicate, swap, drop, well-framed garbage, raw garbage}, reader with replay window and close threshold. R: every distinct fault plan of the model graph (quick: seeded sample of 120; thorough: all) applied by a proxy to the real link frames of a real link, both directions, frames of all 6 message types with sizes 1..10000 (+ appendices), well-framed garbage of lengths 4..100; after framing-breaking faults up to 600 more frames of ~20 kB (12 MB) are sent. Successor links: the model's plans that contain prev-link (a link frame recorded on an earlier link between the same two routers, sealed by either end, alone or with a second fault) on chains of 2-3 real links between one pair of router stacks that is never restarted (quick: every single plan in both directions + a seeded sample, 28 chains; thorough: all), with who dials, how the earlier links ended and which record comes back varied. T: deliveries, closing state and wire capture judged by TLC. distinct = distinct (plan, direction, garbage length)")
 	c.Assume("ChaCha20-Poly1305 unforgeable", "'keeps arriving or closed' is judged after at most 600 further frames of ~20 kB (12 MB) and 50 ms")
 
 	mc, err := c.TLC("LinkLayer", "LinkLayer_MC.cfg", vf.TLCOpts{Workers: 8, Coverage: true, Timeout: 10 * time.Minute})
@@ -465,36 +634,7 @@ func run(c *vf.Ctx) {
 	if err != nil {
 		c.Fatal("dump: %v", err)
 	}
-	d.Inits = []string{d.Edges[0].From}
-	g := vf.BuildGraph(d)
-	// distinct fault plans along shortest paths
-	parent := map[string]int{}
-	seen := map[string]bool{d.Inits[0]: true}
-	queue := []string{d.Inits[0]}
-	plans := map[string][]fault{}
-	planOf := map[string][]fault{d.Inits[0]: nil}
-	for len(queue) > 0 {
-		s := queue[0]
-		queue = queue[1:]
-		for _, ei := range g.Out[s] {
-			t := g.Edges[ei].To
-			var a act
-			_ = json.Unmarshal(g.Edges[ei].Act, &a)
-			pl := planOf[s]
-			if a.Name == "fault" {
-				// two operators may lead to the same model state (well-framed garbage / a reflected frame): both are plans
-				pl = append(append([]fault(nil), pl...), fault{a.Op, a.At, a.After})
-				plans[fmt.Sprint(pl)] = pl
-			}
-			if seen[t] {
-				continue
-			}
-			seen[t] = true
-			parent[t] = ei
-			planOf[t] = pl
-			queue = append(queue, t)
-		}
-	}
+	plans := enumPlans(d)
 	keys := make([]string, 0, len(plans))
 	for k, pl := range plans {
 		ok := true
@@ -509,6 +649,11 @@ func run(c *vf.Ctx) {
 	}
 	sort.Strings(keys)
 	allKeys := append([]string(nil), keys...)
+	if p := os.Getenv("VERIF_C05_PLANS"); p != "" {
+		// maintenance aid: the fault plans of the model graph, one per line (to compare before / after a change of the model)
+		_ = os.WriteFile(p, []byte(strings.Join(allKeys, "\n")+"\n"), 0o644)
+		c.Fatal("VERIF_C05_PLANS is set: the fault plans were written to %s, nothing was checked", p)
+	}
 	c.Stage("M", map[string]any{"distinct": mc.Distinct, "fault_plans": len(keys)})
 	c.Logf("M: %d states, %d fault plans", mc.Distinct, len(keys))
 	rng := rand.New(rand.NewSource(c.Seed))
@@ -532,19 +677,34 @@ func run(c *vf.Ctx) {
 	var starts []int
 	scaleOf := 1
 	nFrames := 4
-	runOne := func(pl []fault, dir string, glen int, sizes []int) {
-		t0 := time.Now()
-		ev, desc := r.run(pl, dir, nFrames, sizes, glen, scaleOf)
-		if d := time.Since(t0); d > 2*time.Second || os.Getenv("VERIF_C05_DEBUG") != "" {
-			c.Logf("link %v dir=%s glen=%d took %v: %v", pl, dir, glen, d.Round(time.Millisecond), ev[len(ev)-1])
+	var chainOf *succ // the link is one in the life of a pair of routers (successor links); nil: a fresh pair per link
+	// maintenance aid: VERIF_C05_ONLY=successor runs the successor-links pass alone; such a run is never a verdict (exit 2)
+	onlySucc := os.Getenv("VERIF_C05_ONLY") == "successor"
+	if onlySucc {
+		keys = nil
+		defer c.Broken("VERIF_C05_ONLY=successor: only the successor-links pass was run")
+	}
+	runOne := func(pl []fault, dir string, glen int, sizes []int) bool {
+		if onlySucc && chainOf == nil {
+			return false
 		}
+		t0 := time.Now()
+		ev, desc := r.runOn(chainOf, pl, dir, nFrames, sizes, glen, scaleOf)
 		if ev == nil {
-			return
+			return false
+		}
+		if d := time.Since(t0); d > 2*time.Second || os.Getenv("VERIF_C05_DEBUG") != "" {
+			c.Logf("link %v dir=%s glen=%d took %v: %v %v", pl, dir, glen, d.Round(time.Millisecond), ev[len(ev)-1], desc["prev_link_records"])
 		}
 		starts = append(starts, len(events))
 		descs = append(descs, desc)
 		events = append(events, ev...)
-		c.Distinct(fmt.Sprintf("%v|%s|%d", pl, dir, glen))
+		if chainOf != nil {
+			c.Distinct(fmt.Sprintf("%v|%s|%d|link %v dialled by %v|%v", pl, dir, glen, desc["link_no"], desc["dialler"], desc["prev_link_records"]))
+		} else {
+			c.Distinct(fmt.Sprintf("%v|%s|%d", pl, dir, glen))
+		}
+		return true
 	}
 	runOne(nil, "A", 28, sizeSets[0])
 	runOne(nil, "B", 28, sizeSets[1])
@@ -593,6 +753,108 @@ func run(c *vf.Ctx) {
 	}
 	scaleOf = 1
 	c.Extra("window_scaled_links", nScaled)
+	// successor links: the SAME two routers (never restarted) have one or two links that carry traffic in both directions
+	// and go down, then the link under attack: the model's plans that contain prev-link - a link frame recorded on an
+	// earlier link, sealed by either end, in front of a frame of the new link, alone or with a second fault. Who dials,
+	// how the earlier links ended, whether they were disturbed themselves and which record comes back vary.
+	dp, err := c.TLC("LinkLayer", "LinkLayer_DumpPrev.cfg", vf.TLCOpts{Workers: 1, Timeout: 10 * time.Minute})
+	if err != nil {
+		c.Fatal("dump (successor links): %v", err)
+	}
+	var prevSingle, prevMulti []string
+	pplans := enumPlans(dp)
+	for k, pl := range pplans {
+		has, ok := false, true
+		for _, f := range pl {
+			has = has || f.Op == "prev-link"
+			ok = ok && f.At != 0
+		}
+		if has && ok && len(pl) == 1 {
+			prevSingle = append(prevSingle, k)
+		} else if has && ok {
+			prevMulti = append(prevMulti, k)
+		}
+	}
+	sort.Strings(prevSingle)
+	sort.Strings(prevMulti)
+	rng.Shuffle(len(prevMulti), func(i, j int) { prevMulti[i], prevMulti[j] = prevMulti[j], prevMulti[i] })
+	if len(prevSingle) == 0 || len(prevMulti) == 0 {
+		c.Broken("successor links: the model graph has no prev-link plans (%d single, %d with a second fault)", len(prevSingle), len(prevMulti))
+	}
+	var calm []string // plans an earlier link of a pair may have suffered itself: one loss, copy or reordering
+	for _, k := range allKeys {
+		if pl := plans[k]; len(pl) == 1 && (pl[0].Op == "drop" || pl[0].Op == "dup" || pl[0].Op == "swap") {
+			calm = append(calm, k)
+		}
+	}
+	type chain struct {
+		plan                       string
+		dir                        string
+		firstB, swap, other, fixed bool
+	}
+	var chains []chain
+	// every single prev-link plan, both directions, with all four (who dials now / whose old frames come back) settings
+	// (quick: two of the four per plan and direction, all four over the four plans)
+	for i := 0; i < len(prevSingle)*2*4; i++ {
+		pi, di, combo := i%len(prevSingle), (i/len(prevSingle))%2, (i/(2*len(prevSingle))+i)%4
+		if !c.Thorough() && i >= len(prevSingle)*2*2 {
+			break
+		}
+		chains = append(chains, chain{plan: prevSingle[pi], dir: []string{"A", "B"}[di], swap: combo == 1 || combo == 3, other: combo == 1 || combo == 2, fixed: true})
+	}
+	for i := 0; i < len(prevMulti) && len(chains) < c.Pick(28, 1<<30); i++ {
+		chains = append(chains, chain{plan: prevMulti[i], dir: []string{"A", "B"}[rng.Intn(2)], firstB: rng.Intn(3) == 0, swap: rng.Intn(3) == 0, other: rng.Intn(3) == 0})
+	}
+	nChainLinks, nChains := 0, 0
+	tChains := time.Now()
+	for ci, ch := range chains {
+		pr := newPair()
+		nBefore := 1
+		if !ch.fixed && rng.Intn(3) == 0 {
+			nBefore = 2
+		}
+		dialB := ch.firstB
+		ok := true
+		for k := 0; k < nBefore && ok; k++ {
+			if k > 0 && rng.Intn(3) == 0 {
+				dialB = !dialB
+			}
+			var pl []fault
+			if !ch.fixed && len(calm) > 0 && rng.Intn(3) == 0 {
+				pl = plans[calm[rng.Intn(len(calm))]]
+			}
+			chainOf = &succ{p: pr, swapped: dialB, closeBy: rng.Intn(3)}
+			nFrames = 4 + rng.Intn(4)
+			ok = runOne(pl, []string{"A", "B"}[rng.Intn(2)], 28, [][]int{{40, 300, 41, 1200}, {1, 700, 45, 2000}, {90, 33, 5000, 64}}[rng.Intn(3)])
+			nFrames = 4
+			if ok {
+				nChainLinks++
+				// the routers connect again a moment later (handshake messages carry a millisecond time sequence)
+				time.Sleep(time.Duration(4+rng.Intn(12)) * time.Millisecond)
+			}
+		}
+		if ok {
+			if ch.swap {
+				dialB = !dialB
+			}
+			chainOf = &succ{p: pr, swapped: dialB, otherEnd: ch.other, oldest: nBefore > 1 && rng.Intn(2) == 0, closeBy: rng.Intn(3)}
+			if runOne(pplans[ch.plan], ch.dir, []int{28, 100, 12, 27, 4, 8, 11}[ci%7], sizeSets[ci%3]) {
+				nChainLinks++
+				nChains++
+				if ci < 2 {
+					c.Sample(descs[len(descs)-1])
+				}
+			}
+		}
+		chainOf = nil
+		pr.stop()
+	}
+	if nChains < len(chains) {
+		c.Broken("successor links: only %d of %d chains of links could be run to their end", nChains, len(chains))
+	}
+	c.Extra("successor_chains", nChains)
+	c.Extra("successor_chain_links", nChainLinks)
+	c.Logf("R: %d chains of successor links (%d links; the model has %d prev-link plans + %d with a second fault) in %v", nChains, nChainLinks, len(prevSingle), len(prevMulti), time.Since(tChains).Round(time.Millisecond))
 	c.Stage("R", map[string]any{"links": len(descs), "events": len(events)})
 	c.Logf("R: %d links, %d events", len(descs), len(events))
 	base := 0
@@ -612,6 +874,8 @@ func run(c *vf.Ctx) {
 		kind := "delivery"
 		what := ""
 		switch {
+		case ev["ev"] == "delivered" && ev["id"] == 0 && ev["prev"] == true:
+			kind, what = "previous-link-frame-delivered", "a link frame recorded on an EARLIER link between the same two routers was put on the wire of this link and its frame was delivered to the remote frame handler, although it was never handed to this link (injected data accepted; a second copy of that frame)"
 		case ev["ev"] == "delivered" && ev["id"] == 0:
 			kind, what = "altered-frame-delivered", "a frame arrived at the remote frame handler that is not byte-identical to any frame handed to the link"
 		case ev["ev"] == "delivered":
@@ -640,6 +904,38 @@ func run(c *vf.Ctx) {
 	}
 	c.Logf("T done")
 	_ = peering.FrameOffset
+}
+
+// enumPlans returns the distinct fault plans along shortest paths of a dumped LinkLayer graph.
+func enumPlans(d *vf.TLCResult) map[string][]fault {
+	d.Inits = []string{d.Edges[0].From}
+	g := vf.BuildGraph(d)
+	seen := map[string]bool{d.Inits[0]: true}
+	queue := []string{d.Inits[0]}
+	plans := map[string][]fault{}
+	planOf := map[string][]fault{d.Inits[0]: nil}
+	for len(queue) > 0 {
+		s := queue[0]
+		queue = queue[1:]
+		for _, ei := range g.Out[s] {
+			t := g.Edges[ei].To
+			var a act
+			_ = json.Unmarshal(g.Edges[ei].Act, &a)
+			pl := planOf[s]
+			if a.Name == "fault" {
+				// two operators may lead to the same model state (well-framed garbage / a reflected frame): both are plans
+				pl = append(append([]fault(nil), pl...), fault{a.Op, a.At, a.After})
+				plans[fmt.Sprint(pl)] = pl
+			}
+			if seen[t] {
+				continue
+			}
+			seen[t] = true
+			planOf[t] = pl
+			queue = append(queue, t)
+		}
+	}
+	return plans
 }
 
 func planSig(d map[string]any) string {
